@@ -242,7 +242,8 @@ def c15_d(run, fx, floors):
                     if s["k"] == "assign" and s["p"]["l"] == 0 and s["rv"]["k"] == "use" and op_local(s["rv"]["op"]) in holders:
                         consumers.add(bj)
                 tt = blk["t"]
-                if tt["k"] == "call" and any(a["k"] == "move" and a["p"]["l"] in holders for a in tt["args"]):
+                if tt["k"] == "call" and any(a["k"] == "move" and a["p"]["l"] in holders for a in tt["args"]) \
+                        and not callee_is(tt, "std::ops::Try::branch", "std::convert::From::from", "std::convert::Into::into"):
                     consumers.add(bj)
             oks = ok_blocks(b)
             start = t.get("target")
